@@ -34,7 +34,8 @@ def terminated(obs, oid, kind, h, stim):
     subscribed = any(t.startswith('OS') for t in toks)
     if kind == 'chReq' and not subscribed:
         return False
-    req_complete = steps[c][0].startswith('RECV:REQUEST_CHANNEL') and steps[c][0].split(':')[3][1] == '1'
+    # the request frame (or, for a fragmented request, its last fragment: the step in which the responder came to life) carried COMPLETE
+    req_complete = steps[c][0].startswith('RECV:') and steps[c][0].split(':')[1] in ('REQUEST_CHANNEL', 'PAYLOAD') and steps[c][0].split(':')[3][1] == '1'
     recv_closed = our_cancel or any(t.startswith('OC') or t.startswith('OE') or (t.startswith('ON') and t.endswith(':1')) for t in toks) or \
         (kind == 'chResp' and (not subscribed or req_complete or peer_term))
     send_closed = (not has_pub) or pub_term or peer_cancel
